@@ -51,6 +51,9 @@ def configs(tier, seed):
         famy = [c for i, c in enumerate(famy) if len(c[1]) <= 3 or (i + seed) % 4 == 0]
     for i, (p, pat) in enumerate(famy):
         cfgs.append(dict(name=f"invariance p={p} mults={pat}", kind="inv", p=p, mults=pat, dim=(i % 2) * 2))
+    # int-typed vectors moved by arbitrary (symbolic) real shifts and scales: the image is the exact affine image
+    for k, ivec in enumerate([[0, 0, 1, 2, 2], [0, 1, 3], [-2, -2, -2, 0, 1, 1, 1], [0, 0, 0, 0, 5, 5, 5, 5]]):
+        cfgs.append(dict(name=f"int vector {ivec} shifted / scaled", kind="intaffine", vec=ivec))
     cfgs.append(dict(name="fp normalize [a,a,b,b]", kind="fp", shape="bez1", seeds=[[1.0, 3.0], [-7.5, 0.3]]))
     cfgs.append(dict(name="fp normalize [a,b]", kind="fp", shape="bez0", seeds=[[0.1, 49.0]]))
     return cfgs
@@ -180,6 +183,41 @@ def _inv(env, cfg):
     env.eq("N_i[normalize(U)]((u-umin)/L) == N_i[U](u)", list(Function(W)((u - t[0]) / L)), list(f(u)))
 
 
+def _intaffine(env, cfg):
+    from compmec.nurbs import KnotVector
+    vec = list(cfg["vec"])
+    a = env.real("a")
+    s = env.real("s", nice=(Fraction(1, 4), 4))
+    env.assume(s * 100000 >= 1)
+    distinct = sorted(set(vec))
+    mults = [vec.count(v) for v in distinct]
+    for how in ("shift", "+=", "scale", "*=", "+"):
+        V = KnotVector(list(vec))
+        if how == "shift":
+            V.shift(a)
+            img = [v + a for v in distinct]
+        elif how == "+=":
+            V += a
+            img = [v + a for v in distinct]
+        elif how == "+":
+            V = V + a
+            img = [v + a for v in distinct]
+        elif how == "scale":
+            V.scale(s)
+            img = [v * s for v in distinct]
+        else:
+            V *= s
+            img = [v * s for v in distinct]
+        check_state(env, V, KV(img, mults, V.degree), f"int vector, {how}")
+    for val in (Fraction(1, 2), Fraction(-7, 3), 3):
+        V = KnotVector(list(vec))
+        V.shift(val)
+        env.holds(f"shift({val}) of an int vector is the exact image", list(V) == [v + val for v in vec])
+        V = KnotVector(list(vec))
+        V.scale(abs(val))
+        env.holds(f"scale({abs(val)}) of an int vector is the exact image", list(V) == [v * abs(val) for v in vec])
+
+
 def _fp_build(cfg, a, b):
     if cfg["shape"] == "bez1":
         return [a, a, b, b]
@@ -226,4 +264,4 @@ def _fp(env, cfg):
 
 
 def body(env, cfg):
-    {"gen": _gen, "random": _random, "weight": _weight, "inv": _inv, "fp": _fp}[cfg["kind"]](env, cfg)
+    {"gen": _gen, "random": _random, "weight": _weight, "inv": _inv, "intaffine": _intaffine, "fp": _fp}[cfg["kind"]](env, cfg)
